@@ -66,8 +66,8 @@ contract(
     requires=[],
     ensures=["node.parent == old(node.parent)", "node.kind == old(node.kind)", "node.line == old(node.line)",
              "node.id_link == old(node.id_link)", "node.refuri == old(node.refuri)",
-             "len(node.children) >= len(old(node.children))",
-             "node.children[: len(old(node.children))] == old(node.children)"],
+             # (a warning node is appended only for a failing converter; these call sites pass none - `converters` is typed None)
+             "node.children == old(node.children)"],
     types={"token": "SyntaxTreeNode", "node": "Element", "keys": "tuple[str, ...]", "converters": "None"},
     raises={}, modifies=["node.children", "Document.log", "fresh", "Element.parent"], trusted=True,
 )
